@@ -215,6 +215,68 @@ def observe_random(par):
     return obs
 
 
+LISTS_CFG = CHAIN_CFG.replace('ChainVerdicts', 'ListVerdicts')
+
+
+def replay_lists(item):
+    i, exp = item
+    par, w, nb, pb = exp
+    obs = batch_obs.observe_lists(par, as_str=(i % 2 == 1), seqkind=('tuple' if i % 5 == 3 else 'list'))
+    obs['ok'] = int('err' not in obs and obs['w'] == w and obs['nb'] == nb and obs['pb'] == pb and obs['sizes_ok'])
+    obs['model'] = [w, nb, pb]
+    return obs
+
+
+def lists_stage(V, tier, rng):
+    """next-batches / previous-batches: the machine's lists (InvNextList, InvPrevList, InvListsAgree checked by TLC) are
+    replayed into the real tag; every recorded list, and lists of random larger parameters, are validated by TLC
+    (L_Next, L_Prev evaluated on the recording)"""
+    b = dict(BOUNDS[tier])
+    ex = []
+    res = tlc.run('MC_C11L', mc_cfg('none', ['InvNextList', 'InvPrevList', 'InvListsAgree', 'ExportLists'], props=False),
+                  files={'MC_C11L.tla': mc_module('MC_C11L', b)}, on_print=ex.append, keep_prints=False, timeout=3000)
+    if res.violated:
+        raise tlc.TLCFailure('DTBatch violates %s (batch lists)' % res.violated)
+    recs = common.pool_map(replay_lists, list(enumerate(ex)), chunk=1500, per_case=30)
+    extra = []
+    for _ in range(1500 if tier == 'quick' else 15000):
+        L = rng.randint(1, 120)
+        size = rng.randint(1, 15)
+        extra.append((0, [[L, rng.randint(-1, L), 0, size, rng.randint(0, 6), rng.randint(0, size - 1)], None, None, None]))
+    recs += common.pool_map(replay_lists, extra, chunk=500, per_case=30)
+    todo = []
+    for r in recs:
+        if '_timeout' in r or '_crash' in r:
+            V.violation({'kind': 'no-result', 'detail': repr(r)[:600]})
+            continue
+        if 'err' in r:
+            V.violation({'kind': 'lists', 'clauses': ['renders'], 'par': r['p'], 'error': r['err'], 'cls': 'lists-error'})
+            continue
+        if r['ok']:
+            V.count('lists_p1_conform')
+        if not r['sizes_ok']:
+            V.violation({'kind': 'lists', 'clauses': ['batch-size'], 'par': r['p'], 'observed': r, 'cls': 'lists-size'})
+        todo.append(r)
+    payload = json.dumps([{'p': r['p'], 'w': r['w'], 'nb': r['nb'], 'pb': r['pb']} for r in todo])
+    one = json.dumps([{'p': [0, 0, 0, 1, 0, 0], 'e': 1, 'c': 0, 'r': [], 'pl': 0, 'ln': 0, 'np': 1}])
+    r3 = tlc.run('ObsBatch', LISTS_CFG, files={'cases.json': one, 'chains.json': '[]', 'lists.json': payload}, workers=1)
+    oks = {v['lid'] - 1: v for v in r3.prints if 'lid' in v}
+    if len(oks) != len(todo):
+        raise tlc.TLCFailure('list verdicts: %d for %d' % (len(oks), len(todo)))
+    for i, r in enumerate(todo):
+        v = oks[i]
+        bad = [k for k in ('next', 'prev') if not v[k]]
+        if bad:
+            V.violation({'kind': 'lists', 'clauses': bad, 'par': dict(zip(('L', 'start', 'end', 'size', 'orphan', 'overlap'), r['p'])),
+                         'window': r['w'], 'next_batches': r['nb'], 'previous_batches': r['pb'], 'model': r.get('model'),
+                         'cls': 'lists-' + '-'.join(bad)})
+        elif not r['ok'] and r['model'][0] is not None:
+            V.count('drift')
+        else:
+            V.count('lists_validated')
+    return res.distinct + r3.distinct, res.generated + r3.generated, len(ex), len(todo)
+
+
 def lemmas():
     """the window lemmas for every sequence length and all integer parameters: spec/DTBatchLemma.tla checked symbolically by
     Apalache (unbounded integers); TLC checks that its operators are DTBatch's Opt on the enumerated ranges"""
@@ -329,14 +391,18 @@ def main(tier):
     if V.notes.get('model_violation') and not V.violations and not V.known_hits:
         raise tlc.TLCFailure('the machine violates %s but the real code never does: the '
                              'specification misrepresents the code' % V.notes['model_violation'])
+    ls, lg, lexp, lval = lists_stage(V, tier, rng)
+    states += ls
+    trans += lg
+    validated += lval
     lem = lemmas()
     cov = {'states': states, 'transitions': trans, 'unbounded_window_lemmas_apalache': lem,
            'traces_validated_against_impl': V.counters.get('p1_conform', 0) + validated,
-           'behaviours_exported': len(exported), 'chains_exported': len(chains),
+           'behaviours_exported': len(exported), 'chains_exported': len(chains), 'batch_lists_exported': lexp,
            'exhaustive': True, 'bounds': {'window': b, 'navigation': nb},
            'samples': [exported[0], exported[len(exported) // 2], chains[len(chains) // 2][1]] if exported and chains else ['none'],
            'clauses': ['Renders', 'InRange', 'Ends', 'Explicit', 'NextIff', 'PrevIff', 'NextStart',
-                       'PrevEnd', 'Flags', 'Tiles', 'Back']}
+                       'PrevEnd', 'Flags', 'Tiles', 'Back', 'NextBatches', 'PreviousBatches']}
     return V.finish(cov, assumptions=[
         'parameters are ints or numeric strings; sequences are lists/tuples of ints',
         'announced neighbours are specified modulo clamping into 1..L (DESIGN C11)'])
